@@ -27,6 +27,10 @@ pub enum Wrap {
     Try,
     Local,
     Cap,
+    /// try { body } finally { print }
+    TryFinally,
+    /// try { throw } finally { body }: the body runs while an exception is in flight
+    InFinally,
 }
 
 #[derive(Clone, Debug, PartialEq, Eq, Hash)]
@@ -63,6 +67,10 @@ enum Ins {
     LeaveTry(usize), // jump over the catch
     CatchPrint,
     CapInc,
+    EnterFinally(usize),
+    /// normal end of a try body whose statement has a finally block: the handler is popped, the block follows
+    LeaveToFinally,
+    EndFinally,
 }
 
 fn compile(f: usize, s: &Script) -> Vec<Ins> {
@@ -118,6 +126,25 @@ fn compile(f: usize, s: &Script) -> Vec<Ins> {
             code.push(Ins::CapInc);
             code.push(Ins::RetNil);
         }
+        Wrap::TryFinally => {
+            // [EnterFinally(f)] body [LeaveToFinally] f: [Print fin] [EndFinally] [RetNil]
+            let fpc = code.len() + 1 + body.len() + 1;
+            code.push(Ins::EnterFinally(fpc));
+            code.extend(body);
+            code.push(Ins::LeaveToFinally);
+            code.push(Ins::Print(format!("fin{}", f)));
+            code.push(Ins::EndFinally);
+            code.push(Ins::RetNil);
+        }
+        Wrap::InFinally => {
+            // [EnterFinally(f)] [Throw] f: body [EndFinally] [RetNil]
+            let fpc = code.len() + 2;
+            code.push(Ins::EnterFinally(fpc));
+            code.push(Ins::Throw(format!("tf{}", f)));
+            code.extend(body);
+            code.push(Ins::EndFinally);
+            code.push(Ins::RetNil);
+        }
     }
     code
 }
@@ -135,11 +162,13 @@ struct FiberSt {
     status: Status,
     pc: usize,
     calls: Vec<usize>,
-    handlers: Vec<(usize, usize)>,
+    handlers: Vec<(usize, usize, bool)>,
     print_resume: bool,
     cap: u32,
     inner_ret: Option<String>,
     exc: Option<String>,
+    pending_exc: Option<(String, String)>,
+    pending_ret: Option<String>,
 }
 
 #[derive(Clone, Debug, PartialEq, Eq, Hash)]
@@ -227,6 +256,13 @@ impl<'a> Model<'a> {
                     self.out.push(if w.fibers[k].status == Status::Finished { "true".into() } else { "false".into() });
                     Ok(())
                 }
+                Ins::Ret(v) if matches!(w.fibers[j].handlers.last(), Some((_, d, true)) if *d == w.fibers[j].calls.len()) => {
+                    // return out of a try body whose statement has a finally block: the block runs first
+                    let (fpc, _, _) = w.fibers[j].handlers.pop().unwrap();
+                    w.fibers[j].pending_ret = Some(v);
+                    w.fibers[j].pc = fpc;
+                    Ok(())
+                }
                 Ins::Ret(v) => {
                     if let Some(ret) = w.fibers[j].calls.pop() {
                         w.fibers[j].inner_ret = Some(v);
@@ -260,8 +296,33 @@ impl<'a> Model<'a> {
                 }
                 Ins::EnterTry(c) => {
                     let depth = w.fibers[j].calls.len();
-                    w.fibers[j].handlers.push((c, depth));
+                    w.fibers[j].handlers.push((c, depth, false));
                     Ok(())
+                }
+                Ins::EnterFinally(fpc) => {
+                    let depth = w.fibers[j].calls.len();
+                    w.fibers[j].handlers.push((fpc, depth, true));
+                    Ok(())
+                }
+                Ins::LeaveToFinally => {
+                    w.fibers[j].handlers.pop();
+                    Ok(())
+                }
+                Ins::EndFinally => {
+                    if let Some((text, class)) = w.fibers[j].pending_exc.take() {
+                        Err(Exc::Thrown(text, class))
+                    } else if let Some(v) = w.fibers[j].pending_ret.take() {
+                        if let Some(ret) = w.fibers[j].calls.pop() {
+                            w.fibers[j].inner_ret = Some(v);
+                            w.fibers[j].pc = ret;
+                            Ok(())
+                        } else {
+                            w.fibers[j].status = Status::Finished;
+                            return Ok(v);
+                        }
+                    } else {
+                        Ok(())
+                    }
                 }
                 Ins::LeaveTry(end) => {
                     w.fibers[j].handlers.pop();
@@ -283,9 +344,13 @@ impl<'a> Model<'a> {
                 Ok(()) => {}
                 Err(Exc::Abort(m)) => return Err(Exc::Abort(m)),
                 Err(Exc::Thrown(text, class)) => {
-                    if let Some((c, depth)) = w.fibers[j].handlers.pop() {
+                    if let Some((c, depth, is_finally)) = w.fibers[j].handlers.pop() {
                         w.fibers[j].calls.truncate(depth);
-                        w.fibers[j].exc = Some(class);
+                        if is_finally {
+                            w.fibers[j].pending_exc = Some((text, class));
+                        } else {
+                            w.fibers[j].exc = Some(class);
+                        }
                         w.fibers[j].pc = c;
                     } else {
                         // nobody in this fiber catches it: exceptions do not cross fiber boundaries
@@ -337,6 +402,8 @@ fn render_fiber(f: usize, s: &Script) -> String {
         Wrap::Try => format!("    try {{\n{}    }} catch e {{\n    print(\"caught\");\n    print(type(e));\n    }}\n", body),
         Wrap::Local => format!("    var l = \"L{}\";\n{}    print(l);\n", f, body),
         Wrap::Cap => format!("    var c = 0;\n    var inc = || {{ c = c + 1; return c; }};\n    print(inc());\n{}    print(inc());\n", body),
+        Wrap::TryFinally => format!("    try {{\n{}    }} finally {{\n    print(\"fin{}\");\n    }}\n", body, f),
+        Wrap::InFinally => format!("    try {{\n    throw \"tf{}\";\n    }} finally {{\n{}    }}\n", f, body),
     };
     if s.param {
         format!("var F{} = Fiber.new(|p| {{\n    print(\"param ${{p}}\");\n{}}});\n", f, inner)
@@ -400,6 +467,8 @@ fn representative_scripts(f: usize, nf: usize) -> Vec<Script> {
         mk(false, Wrap::None, vec![Act::T]),
         mk(false, Wrap::Try, vec![Act::Y, Act::Y]),
         mk(false, Wrap::Frame, vec![Act::XY, Act::C(o, true)]),
+        mk(false, Wrap::TryFinally, vec![Act::Y]),
+        mk(false, Wrap::InFinally, vec![Act::Y]),
     ]
 }
 
@@ -410,7 +479,7 @@ pub fn run(ctx: &Ctx) -> Report {
     let nf = 2;
     let script_len = if thorough { 3 } else { 2 };
     let main_depth = if thorough { 6 } else { 5 };
-    let wraps = [Wrap::None, Wrap::Frame, Wrap::Try, Wrap::Local, Wrap::Cap];
+    let wraps = [Wrap::None, Wrap::Frame, Wrap::Try, Wrap::Local, Wrap::Cap, Wrap::TryFinally, Wrap::InFinally];
     let mut f0_scripts: Vec<Script> = Vec::new();
     for b in bodies(script_len, 0, nf) {
         for w in wraps {
@@ -422,6 +491,11 @@ pub fn run(ctx: &Ctx) -> Report {
                 // a running fiber re-entered with the wrong argument count is an error either way; which
                 // of the two error classes is reported first is not fixed by the property: left out
                 if param && b.iter().any(|a| matches!(a, Act::C(0, false))) {
+                    continue;
+                }
+                // inside a finally block entered by an exception: no locals (listed finding KF-C08-04), no
+                // abrupt exit from the finally block (X)
+                if w == Wrap::InFinally && b.iter().any(|a| matches!(a, Act::XY | Act::R | Act::T)) {
                     continue;
                 }
                 if thorough || b.len() <= 2 {
@@ -460,7 +534,7 @@ pub fn run(ctx: &Ctx) -> Report {
             }
             let defs: String = scripts.iter().enumerate().map(|(f, s)| render_fiber(f, s)).collect();
             let init = World {
-                fibers: (0..nf).map(|_| FiberSt { status: Status::New, pc: 0, calls: vec![], handlers: vec![], print_resume: false, cap: 0, inner_ret: None, exc: None }).collect(),
+                fibers: (0..nf).map(|_| FiberSt { status: Status::New, pc: 0, calls: vec![], handlers: vec![], print_resume: false, cap: 0, inner_ret: None, exc: None, pending_exc: None, pending_ret: None }).collect(),
                 aborted: None,
             };
             // BFS over main action sequences
@@ -508,7 +582,7 @@ pub fn run(ctx: &Ctx) -> Report {
         }
     }
     // vacuity: every action and wrapper of the alphabet occurred
-    for need in ["P", "Y", "Y0", "XY", "C", "R", "T", "HF", "Frame", "Try", "Local", "Cap"] {
+    for need in ["P", "Y", "Y0", "XY", "C", "R", "T", "HF", "Frame", "Try", "Local", "Cap", "TryFinally", "InFinally"] {
         if !fired.contains(need) {
             crate::pool::machinery_failure(&format!("C09: action {} never occurred in any script", need));
         }
@@ -524,7 +598,7 @@ pub fn run(ctx: &Ctx) -> Report {
     expect::fill(
         &mut report,
         &stats,
-        "for every pair of fiber scripts (fiber 0: every script up to the length bound over {print, yield value, yield nothing, x = yield, call the other fiber with/without argument, call itself, has_finished, return, throw} under each wrapper {none, nested function frame, try/catch, local kept across suspensions, captured variable}, with and without a parameter; fiber 1: representative scripts) a breadth-first search over sequences of main-program actions {call, call with argument, call with two arguments, has_finished, yield at top level} with canonical hashing of the model state; every transition is replayed on the real VM (program = definitions + action path) and must print exactly the model's labels; the fiber/raw-pointer agreement monitor runs at every instruction.",
+        "for every pair of fiber scripts (fiber 0: every script up to the length bound over {print, yield value, yield nothing, x = yield, call the other fiber with/without argument, call itself, has_finished, return, throw} under each wrapper {none, nested function frame, try/catch, local kept across suspensions, captured variable, try/finally around the script, script inside a finally block entered by an exception}, with and without a parameter; fiber 1: representative scripts) a breadth-first search over sequences of main-program actions {call, call with argument, call with two arguments, has_finished, yield at top level} with canonical hashing of the model state; every transition is replayed on the real VM (program = definitions + action path) and must print exactly the model's labels; the fiber/raw-pointer agreement monitor runs at every instruction.",
         json!({"fibers": nf, "script_length": script_len, "main_sequence_length": main_depth}),
     );
     report.cov("states", json!(total_states));
